@@ -156,7 +156,7 @@ func Harness_C03_AcceptJSON(n int) {
 		case c < 0x80 && (allEscaped || c < 0x20 || c == '"' || c == '\\'):
 			lit += `\u00` + string(hex[c>>4]) + string(hex[c&15])
 		default:
-			lit += string(c)
+			lit += s[i : i+1] // the byte itself (string(c) would re-encode a byte >= 0x80 as a rune)
 		}
 	}
 	lit += `"`
